@@ -14,6 +14,7 @@
 (***************************************************************************)
 EXTENDS Syntax
 
+
 Cod == INSTANCE Codecs
 
 NameFlateDecode == <<70, 108, 97, 116, 101, 68, 101, 99, 111, 100, 101>>
